@@ -159,8 +159,21 @@ def monitor(ctx, extended=False):
             ctx.violation(f'slurry object raised {type(e).__name__}: {e}', {'slurry': p}, key='curves')
     # the public graded-sand call on raw gradings of 3 to 32 given points (D15/D50/D85, with an extra low point, sieve curves)
     from props.c12 import gen_case
-    for _ in range(ctx.n(60, 3000) * (2 if extended else 1)):
-        p, pts, kind, (nu, rhol, dl) = gen_case(ctx.rng)
+    import math as _m
+
+    def boundary_cases():
+        # a given point a few ulp above the limit in a 4-point grading whose lowest point lies below it (the start fraction then lies within rounding of
+        # that point's own fraction)
+        for _ in range(9):
+            p_, _pts, _k, (nu_, rhol_, dl_) = gen_case(ctx.rng)
+            d15_ = dl_
+            for _u in range(ctx.rng.choice([1, 2, 3])):
+                d15_ = _m.nextafter(d15_, 1.0)
+            r_ = ctx.rng.choice([1.5, 2.0, 3.0])
+            if d15_ * r_ * 2 <= 0.5 * p_['Dp']:
+                yield p_, {ctx.rng.choice([0, 0.05]): d15_ / 2.5, 0.15: d15_, 0.5: d15_ * r_, 0.85: d15_ * r_ * 2}, '4pt@boundary', (nu_, rhol_, dl_)
+    cases_ = list(boundary_cases()) + [gen_case(ctx.rng) for _ in range(ctx.n(60, 3000) * (2 if extended else 1))]
+    for p, pts, kind, (nu, rhol, dl) in cases_:
         if max(pts.values()) > 0.5 * p['Dp']:
             continue        # C12 allows D85 beyond the pipe; the envelope of this property (grain sizes up to 0.25 Dp, D85 up to 0.5 Dp) does not
         inp = {'points': {str(k): v for k, v in pts.items()}, 'Dp': p['Dp'], 'fluid': p['fluid'], 'rhos': p['rhos'], 'Cv': p['Cv']}
